@@ -50,7 +50,7 @@ abbrev M := Except Err
 
 @[reducible] def Num.py (v : Int) : Num := ⟨.py, v⟩
 
-def Ty.bits : Ty → Nat
+def Ty.bits : Ty → Int
   | .py => 0 | .i8 => 8 | .i16 => 16 | .i32 => 32 | .i64 => 64 | .u8 => 8 | .u16 => 16 | .u32 => 32
 
 def Ty.signed : Ty → Bool
